@@ -34,6 +34,10 @@ enum Content {
     Blank(u8),
     CommentOnly,
     Semicolon,
+    /// valid Lua whatever the file is called
+    Scratch,
+    /// a JSON document (not Lua)
+    Json,
     NotLua,
 }
 
@@ -59,6 +63,8 @@ impl Content {
             Content::Blank(_) => b"  \t\n".to_vec(),
             Content::CommentOnly => b"-- nothing but a comment\n--[[ and\n a block ]]\n".to_vec(),
             Content::Semicolon => b";\n".to_vec(),
+            Content::Scratch => b"-- scratch pad\nvalue = 1 + 1\n".to_vec(),
+            Content::Json => b"{\"name\": \"demo\"}\n".to_vec(),
             Content::NotLua => b"just some text\n".to_vec(),
         }
     }
@@ -242,7 +248,55 @@ fn generate(seed: u64, id: u64, disk: bool) -> Scenario {
         // the single input file is one of them
         input = rng2.pick(&quiet_paths).clone();
     }
-    if shape.starts_with("file") {
+    if shape.starts_with("file") && rng2.chance(1, 2) {
+        // a single input file: every kind of extension x every spelling of the output
+        const EXTENSIONS: [&str; 7] = ["lua", "luau", "txt", "json", "", "LUA", "lua.bak"];
+        let extension = *rng2.pick(&EXTENSIONS);
+        let dir = *rng2.pick(&DIRS);
+        let name = if extension.is_empty() {
+            "single".to_owned()
+        } else {
+            format!("single.{}", extension)
+        };
+        let path = if dir.is_empty() {
+            format!("src/{}", name)
+        } else {
+            format!("src/{}/{}", dir, name)
+        };
+        files.insert(
+            path.clone(),
+            if extension == "json" { Content::Json } else { Content::Scratch },
+        );
+        input = path;
+        files.retain(|p, _| !p.starts_with("out/") && !p.starts_with("dist") && !p.starts_with("build/"));
+        output = match rng2.below(13) {
+            0 | 1 => None,
+            2 => Some("out/bundle.lua".to_owned()),
+            3 => Some("out/bundle.luau".to_owned()),
+            4 => Some("out/bundle.txt".to_owned()),
+            5 => Some("dist/v1.2".to_owned()),
+            6 => Some("out/main.client".to_owned()),
+            7 => {
+                files.insert("out/existing.lua".to_owned(), Content::NotLua);
+                Some("out/existing.lua".to_owned())
+            }
+            8 => {
+                files.insert("out/existing".to_owned(), Content::NotLua);
+                Some("out/existing".to_owned())
+            }
+            9 => {
+                files.insert("out/README.md".to_owned(), Content::NotLua);
+                Some("out".to_owned())
+            }
+            10 => {
+                files.insert("dist.v2/README.md".to_owned(), Content::NotLua);
+                Some("dist.v2".to_owned())
+            }
+            11 => Some("out/new".to_owned()),
+            _ => Some("out/newdir/".to_owned()),
+        };
+        shape = "single-file-matrix";
+    } else if shape.starts_with("file") {
         if rng2.chance(1, 3) && output.is_some() {
             // single file into an EXISTING directory whose name contains a dot
             let dir = *rng2.pick(&DOTTED_DIRS);
@@ -286,6 +340,8 @@ fn generate(seed: u64, id: u64, disk: bool) -> Scenario {
             | Content::InvalidUtf8InString
             | Content::Latin1InComment
             | Content::Semicolon => faulty.push(path.clone()),
+            // a JSON file is only read when it is the explicit input and an output is given
+            Content::Json if output.is_some() => faulty.push(path.clone()),
             _ => {}
         }
     }
